@@ -65,6 +65,44 @@ def u10_worker(unit, emit):
                 emit.count('u10')
 
 
+FOREIGN = ['\u0627', '\u0647', '\u0665', '\u06f5', '\u0417', '\u041e', '\u0431', '\u039f', '\u03b8', 'O', 'o', 'l', 'I', 'S', 'B', 'Z',
+           '\u00b2', '\u00b9', '\u2460', '\u2070', '\u3007', '\u4e00', '\u5341', '\u216b', '\u0d6a', '\u1369', '\U0001d7ce', '\uff11']
+
+
+def u11_worker(unit, emit):
+    """Foreign characters in the place of a digit of a valid number: the characters the module's own source mentions (its
+    translation tables) and a fixed repertoire of letters and numerals that look like digits."""
+    name, p = unit
+    mod = lib.module(name)
+    rnd = random.Random('%s/u11/%s' % (p['seed'], name))
+    own = [c for c in inputs.module_alphabet(mod, cap=200) if ord(c) > 127]
+    # every non-ASCII character of the module's string constants, lower case ones included
+    import ast, inspect
+    try:
+        for node in ast.walk(ast.parse(inspect.getsource(mod))):
+            if isinstance(node, ast.Constant) and isinstance(node.value, str) and len(node.value) <= 200:
+                own += [c for c in node.value if ord(c) > 127 and c not in own]
+    except Exception:
+        pass
+    chars = list(dict.fromkeys(own[:60] + FOREIGN))
+    bases = lib.pick(lib.distinct_compact(name, mod, lib.corpus(name, mod)), p['bases'], rnd)
+    for base in bases:
+        r0 = lib.call(mod.validate, base)
+        if not (r0['k'] == 'ret' and r0['t'] == 'str'):
+            continue
+        spots = [i for i, c in enumerate(base) if c in '0123456789']
+        spots = spots if len(spots) <= p['spots'] else sorted(rnd.sample(spots, p['spots']))
+        for i in spots:
+            rdel = lib.call(mod.validate, base[:i] + base[i + 1:])
+            for ch in chars:
+                x = base[:i] + ch + base[i + 1:]
+                r1 = lib.call(mod.validate, x)
+                emit.trace([{'kind': 'u11', 'm': name, 'd': ord(base[i]), 'ch': ord(ch), 'dec': unicodedata.decimal(ch, -1),
+                             'r0': slim(r0), 'r1': slim(r1), 'rdel': slim(rdel)}],
+                           {'m': name, 'w': x, 'base': base, 'how': 'foreign U+%04X for digit %r@%d' % (ord(ch), base[i], i), 'site': r1['site']})
+                emit.count('u11')
+
+
 def slim(r):
     return {'k': r['k'], 't': r['t'], 'v': r['v']}
 
@@ -148,6 +186,13 @@ def main():
     shards = chk.drive(units, u10_worker)
     extra = run.merge_extra(shards)
     rej = chk.validate('Trace_Clean', shards, own_clauses={'U10'}, label='look-alike spellings end to end')
+    chk.report(rej)
+    # ---- U11: module-level translation tables
+    p11 = {'seed': chk.seed, 'bases': 1 if quick else 6, 'spots': 3 if quick else 12}
+    shards11 = chk.drive([(name, p11) for name, _ in lib.modules()], u11_worker)
+    extra11 = run.merge_extra(shards11)
+    chk.cov['u11_events'] = extra11.get('u11', 0)
+    rej = chk.validate('Trace_Clean', shards11, own_clauses={'U11'}, label='foreign characters in digit positions, every module')
     chk.report(rej)
     n_cp = len([e for e in evs if e['kind'] == 'cp'])
     return chk.finish(samples=[{'map_entries': {k: len(v) for k, v in sorted(sources.items())}}] + first_meta(shards, 2),
